@@ -13,34 +13,35 @@ Definition same_entities (s s' : Sim) : Prop :=
   vehicles s' = vehicles s /\ stations s' = stations s /\ bases s' = bases s /\ requests s' = requests s /\
   v_loc s' = v_loc s /\ r_loc s' = r_loc s /\ s_loc s' = s_loc s /\ b_loc s' = b_loc s /\
   v_search s' = v_search s /\ r_search s' = r_search s /\ s_search s' = s_search s /\ b_search s' = b_search s /\
-  dt s' = dt s.
+  dt s' = dt s /\ sim_time s' = sim_time s.
 
-Inductive Prim (A : Request -> Prop) : Sim -> Sim -> Prop :=
-| P_modv s v s' : modify_vehicle env s v = Ok s' -> Prim A s s'
-| P_mods s x s' : modify_station env s x = Ok s' -> Prim A s s'
-| P_modb s x s' : modify_base env s x = Ok s' -> Prim A s s'
-| P_modr s x s' : modify_request env s x = Ok s' -> Prim A s s'
-| P_remr s k s' : remove_request env s k = Ok s' -> Prim A s s'
-| P_addr s r s' : A r -> add_request env s r = Ok s' -> Prim A s s'
-| P_ghost s s' : same_entities s s' -> Prim A s s'.
+Inductive Prim (A : Request -> Prop) (T : Prop) : Sim -> Sim -> Prop :=
+| P_modv s v s' : modify_vehicle env s v = Ok s' -> Prim A T s s'
+| P_mods s x s' : modify_station env s x = Ok s' -> Prim A T s s'
+| P_modb s x s' : modify_base env s x = Ok s' -> Prim A T s s'
+| P_modr s x s' : modify_request env s x = Ok s' -> Prim A T s s'
+| P_remr s k s' : remove_request env s k = Ok s' -> Prim A T s s'
+| P_addr s r s' : A r -> add_request env s r = Ok s' -> Prim A T s s'
+| P_ghost s s' : same_entities s s' -> Prim A T s s'
+| P_tick s : T -> Prim A T s (sim_tick s).
 
-Inductive Reach (A : Request -> Prop) : Sim -> Sim -> Prop :=
-| R_refl s : Reach A s s
-| R_step s s' s'' : Prim A s s' -> Reach A s' s'' -> Reach A s s''.
+Inductive Reach (A : Request -> Prop) (T : Prop) : Sim -> Sim -> Prop :=
+| R_refl s : Reach A T s s
+| R_step s s' s'' : Prim A T s s' -> Reach A T s' s'' -> Reach A T s s''.
 
-Lemma Reach_trans A s1 s2 s3 : Reach A s1 s2 -> Reach A s2 s3 -> Reach A s1 s3.
+Lemma Reach_trans A T s1 s2 s3 : Reach A T s1 s2 -> Reach A T s2 s3 -> Reach A T s1 s3.
 Proof. induction 1; intros; [assumption|]. econstructor; eauto. Qed.
-Lemma Reach_one A s s' : Prim A s s' -> Reach A s s'.
+Lemma Reach_one A T s s' : Prim A T s s' -> Reach A T s s'.
 Proof. intro. econstructor; [eassumption|constructor]. Qed.
-Lemma Reach_mono (A B : Request -> Prop) s s' : (forall r, A r -> B r) -> Reach A s s' -> Reach B s s'.
+Lemma Reach_mono (A B : Request -> Prop) (T U : Prop) s s' : (forall r, A r -> B r) -> (T -> U) -> Reach A T s s' -> Reach B U s s'.
 Proof.
-  intros I. induction 1; [constructor|]. econstructor; [|eassumption].
-  destruct H; [eapply P_modv|eapply P_mods|eapply P_modb|eapply P_modr|eapply P_remr|eapply P_addr|eapply P_ghost]; eauto.
+  intros I J. induction 1; [constructor|]. econstructor; [|eassumption].
+  destruct H; [eapply P_modv|eapply P_mods|eapply P_modb|eapply P_modr|eapply P_remr|eapply P_addr|eapply P_ghost|eapply P_tick]; eauto.
 Qed.
 
 Lemma same_entities_refl s : same_entities s s.
 Proof. unfold same_entities; repeat split. Qed.
-Lemma ghost_emit A s e : Reach A s (emit s e).
+Lemma ghost_emit A T s e : Reach A T s (emit s e).
 Proof. apply Reach_one, P_ghost. unfold same_entities, emit; cbn; repeat split. Qed.
 
 Definition NoAdd : Request -> Prop := fun _ => False.
@@ -61,59 +62,59 @@ Ltac dmatch H :=
       end
   end.
 
-Lemma apply_new_vehicle_state_reach A s vid st s' : apply_new_vehicle_state env s vid st = Ok s' -> Reach A s s'.
+Lemma apply_new_vehicle_state_reach A T s vid st s' : apply_new_vehicle_state env s vid st = Ok s' -> Reach A T s s'.
 Proof. unfold apply_new_vehicle_state. intro H. dmatch H. apply Reach_one. eapply P_modv; eauto. Qed.
 
 Lemma rbind_ok {X Y} (r : res X) (f : X -> res Y) y : rbind r f = Ok y -> exists x, r = Ok x /\ f x = Ok y.
 Proof. destruct r; cbn; try discriminate. eauto. Qed.
 
-Lemma pick_up_trip_reach A s vid rid s' : pick_up_trip env s vid rid = Ok s' -> Reach A s s'.
+Lemma pick_up_trip_reach A T s vid rid s' : pick_up_trip env s vid rid = Ok s' -> Reach A T s s'.
 Proof.
   unfold pick_up_trip, rbind. intro H. repeat dmatch H.
   r_modv. eapply Reach_trans; [apply ghost_emit|]. apply Reach_one. eapply P_remr; eauto.
 Qed.
-Lemma drop_off_trip_reach A s vid r s' : drop_off_trip s vid r = Ok s' -> Reach A s s'.
+Lemma drop_off_trip_reach A T s vid r s' : drop_off_trip s vid r = Ok s' -> Reach A T s s'.
 Proof. unfold drop_off_trip. intro H. repeat dmatch H. inv H. apply ghost_emit. Qed.
 
-Lemma enter_charging_station_reach A vid sid cid s s' : enter_charging_station env vid sid cid s = Ok s' -> Reach A s s'.
+Lemma enter_charging_station_reach A T vid sid cid s s' : enter_charging_station env vid sid cid s = Ok s' -> Reach A T s s'.
 Proof.
   unfold enter_charging_station, rbind. intro H. repeat dmatch H.
   r_mods. eapply apply_new_vehicle_state_reach; eauto.
 Qed.
-Lemma enter_charging_base_reach A vid bid cid s s' : enter_charging_base env vid bid cid s = Ok s' -> Reach A s s'.
+Lemma enter_charging_base_reach A T vid bid cid s s' : enter_charging_base env vid bid cid s = Ok s' -> Reach A T s s'.
 Proof.
   unfold enter_charging_base, rbind. intro H. repeat dmatch H.
   r_modb. r_mods. eapply apply_new_vehicle_state_reach; eauto.
 Qed.
-Lemma enter_charge_queueing_reach A vid sid cid t s s' : enter_charge_queueing env vid sid cid t s = Ok s' -> Reach A s s'.
+Lemma enter_charge_queueing_reach A T vid sid cid t s s' : enter_charge_queueing env vid sid cid t s = Ok s' -> Reach A T s s'.
 Proof.
   unfold enter_charge_queueing, rbind. intro H. repeat dmatch H.
   r_mods. eapply apply_new_vehicle_state_reach; eauto.
 Qed.
-Lemma enter_reserve_base_reach A vid bid s s' : enter_reserve_base env vid bid s = Ok s' -> Reach A s s'.
+Lemma enter_reserve_base_reach A T vid bid s s' : enter_reserve_base env vid bid s = Ok s' -> Reach A T s s'.
 Proof.
   unfold enter_reserve_base, rbind. intro H. repeat dmatch H.
   r_modb. eapply apply_new_vehicle_state_reach; eauto.
 Qed.
-Lemma enter_dispatch_station_reach A vid sid cid r s s' : enter_dispatch_station env vid sid cid r s = Ok s' -> Reach A s s'.
+Lemma enter_dispatch_station_reach A T vid sid cid r s s' : enter_dispatch_station env vid sid cid r s = Ok s' -> Reach A T s s'.
 Proof.
   unfold enter_dispatch_station. intro H. repeat dmatch H.
   - eapply enter_charging_station_reach; eauto.
   - eapply apply_new_vehicle_state_reach; eauto.
 Qed.
-Lemma enter_dispatch_base_reach A vid bid r s s' : enter_dispatch_base env vid bid r s = Ok s' -> Reach A s s'.
+Lemma enter_dispatch_base_reach A T vid bid r s s' : enter_dispatch_base env vid bid r s = Ok s' -> Reach A T s s'.
 Proof. unfold enter_dispatch_base. intro H. repeat dmatch H. eapply apply_new_vehicle_state_reach; eauto. Qed.
-Lemma enter_dispatch_trip_reach A vid rid r s s' : enter_dispatch_trip env vid rid r s = Ok s' -> Reach A s s'.
+Lemma enter_dispatch_trip_reach A T vid rid r s s' : enter_dispatch_trip env vid rid r s = Ok s' -> Reach A T s s'.
 Proof. unfold enter_dispatch_trip. intro H. repeat dmatch H. r_modr. eapply apply_new_vehicle_state_reach; eauto. Qed.
-Lemma enter_servicing_trip_reach A vid q d r s s' : enter_servicing_trip env vid q d r s = Ok s' -> Reach A s s'.
+Lemma enter_servicing_trip_reach A T vid q d r s s' : enter_servicing_trip env vid q d r s = Ok s' -> Reach A T s s'.
 Proof.
   unfold enter_servicing_trip, rbind. intro H. repeat dmatch H.
   eapply Reach_trans; [eapply pick_up_trip_reach; eauto|]. eapply apply_new_vehicle_state_reach; eauto.
 Qed.
-Lemma enter_repositioning_reach A vid r s s' : enter_repositioning env vid r s = Ok s' -> Reach A s s'.
+Lemma enter_repositioning_reach A T vid r s s' : enter_repositioning env vid r s = Ok s' -> Reach A T s s'.
 Proof. unfold enter_repositioning. intro H. repeat dmatch H. eapply apply_new_vehicle_state_reach; eauto. Qed.
 
-Lemma vs_enter_reach A vs s s' : vs_enter env vs s = Ok s' -> Reach A s s'.
+Lemma vs_enter_reach A T vs s s' : vs_enter env vs s = Ok s' -> Reach A T s s'.
 Proof.
   destruct vs as [vid st]. unfold vs_enter. destruct st; intro H;
     eauto using apply_new_vehicle_state_reach, enter_repositioning_reach, enter_dispatch_trip_reach, enter_servicing_trip_reach,
@@ -121,7 +122,7 @@ Proof.
       enter_reserve_base_reach, enter_charging_base_reach.
 Qed.
 
-Lemma vs_exit_reach A vs nx s s' : vs_exit env vs nx s = Ok s' -> Reach A s s'.
+Lemma vs_exit_reach A T vs nx s s' : vs_exit env vs nx s = Ok s' -> Reach A T s s'.
 Proof.
   destruct vs as [vid st]. unfold vs_exit. destruct st; intro H; try (inv H; constructor).
   - unfold exit_dispatch_trip in H. repeat dmatch H; [|inv H; constructor]. apply Reach_one. eapply P_modr; eauto.
@@ -132,25 +133,29 @@ Proof.
   - unfold exit_charging_base in H. repeat dmatch H. r_modb. apply Reach_one. eapply P_mods; eauto.
 Qed.
 
-Lemma transition_reach A s p n s' : transition env s p n = Ok s' -> Reach A s s'.
+Lemma transition_reach A T s p n s' : transition env s p n = Ok s' -> Reach A T s s'.
 Proof.
   unfold transition, transition_previous_to_next. intro H. repeat dmatch H. inv H.
   eapply Reach_trans; [eapply vs_exit_reach|eapply vs_enter_reach]; eauto.
 Qed.
 
-Lemma charge_reach A s vid sid cid s' : charge env s vid sid cid = Ok s' -> Reach A s s'.
+Lemma charge_reach A T s vid sid cid s' : charge env s vid sid cid = Ok s' -> Reach A T s s'.
 Proof.
   unfold charge. intro H. repeat dmatch H.
   all: r_modv; eapply Reach_trans; [apply ghost_emit|]; apply Reach_one; eapply P_mods; eauto.
 Qed.
-Lemma move_reach A s vid s' : move env s vid = Ok s' -> Reach A s s'.
+Lemma move_reach A T s vid s' : move env s vid = Ok s' -> Reach A T s s'.
 Proof.
   unfold move. intro H. repeat dmatch H.
   - inv H. apply Reach_one. eapply P_modv; eauto.
-  - unfold go_out_of_service_on_empty in H. eapply apply_new_vehicle_state_reach; eauto.
+  - unfold go_out_of_service_on_empty in H. rewrite E in H.
+    destruct (vs_exit env (vid, v_state v) (vid, OutOfService) s) eqn:X.
+    + eapply Reach_trans; [eapply vs_exit_reach; eauto|]. eapply apply_new_vehicle_state_reach; eauto.
+    + eapply apply_new_vehicle_state_reach; eauto.
+    + eapply apply_new_vehicle_state_reach; eauto.
   - inv H. eapply Reach_trans; [apply ghost_emit|]. apply Reach_one. eapply P_modv; eauto.
 Qed.
-Lemma perform_update_reach A vid st s s' : perform_update env vid st s = Ok s' -> Reach A s s'.
+Lemma perform_update_reach A T vid st s s' : perform_update env vid st s = Ok s' -> Reach A T s s'.
 Proof.
   destruct st; cbn [perform_update]; intro H.
   - repeat dmatch H. apply Reach_one. eapply P_modv; eauto.
@@ -167,34 +172,30 @@ Proof.
   - repeat dmatch H. eapply charge_reach; eauto.
   - inv H. constructor.
 Qed.
-Lemma vs_update_reach A vid st s s' : vs_update env vid st s = Ok s' -> Reach A s s'.
+Lemma vs_update_reach A T vid st s s' : vs_update env vid st s = Ok s' -> Reach A T s s'.
 Proof.
   unfold vs_update. intro H. repeat dmatch H.
   - eapply Reach_trans; [eapply transition_reach; eauto|eapply perform_update_reach; eauto].
   - eapply perform_update_reach; eauto.
 Qed.
-Lemma step_vehicle_reach A s vs : Reach A s (step_vehicle env s vs).
+Lemma step_vehicle_reach A T s vs : Reach A T s (step_vehicle env s vs).
 Proof. unfold step_vehicle. destruct (vs_update env (fst vs) (snd vs) s) eqn:E; try constructor. eapply vs_update_reach; eauto. Qed.
 
-Lemma fold_reach {X} A (f : Sim -> X -> Sim) (l : list X) : (forall s x, Reach A s (f s x)) -> forall s, Reach A s (fold_left f l s).
+Lemma fold_reach {X} A T (f : Sim -> X -> Sim) (l : list X) : (forall s x, Reach A T s (f s x)) -> forall s, Reach A T s (fold_left f l s).
 Proof. intro Hf. induction l as [|x l IH]; intro s; cbn; [constructor|]. eapply Reach_trans; [apply Hf|apply IH]. Qed.
 
-Lemma perform_vehicle_state_updates_reach A s : Reach A s (perform_vehicle_state_updates env s).
+Lemma perform_vehicle_state_updates_reach A T s : Reach A T s (perform_vehicle_state_updates env s).
 Proof. unfold perform_vehicle_state_updates. apply fold_reach. intros. apply step_vehicle_reach. Qed.
 
-Lemma apply_instructions_reach A s is : Reach A s (apply_instructions env s is).
+Lemma apply_instructions_reach A T s is : Reach A T s (apply_instructions env s is).
 Proof.
-  unfold apply_instructions.
-  assert (P1 : forall is acc, Reach A (fst acc) (fst (fold_left (apply_phase1 env) is acc))).
-  { induction is0 as [|i is0 IH]; intros [s0 rs]; cbn [fold_left]; [constructor|].
-    eapply Reach_trans; [|apply IH]. unfold apply_phase1. destruct (apply_instruction env s0 i); cbn; try constructor.
-    apply Reach_one, P_ghost. unfold same_entities; cbn; repeat split. }
-  specialize (P1 is (s, [])). destruct (fold_left (apply_phase1 env) is (s, [])) as [s1 results]. cbn in P1.
-  eapply Reach_trans; [exact P1|]. apply fold_reach. intros s0 r. unfold apply_phase2.
-  destruct (transition env s0 (fst r) (snd r)) eqn:E; try constructor. eapply transition_reach; eauto.
+  unfold apply_instructions. apply fold_reach. intros s0 [i r]. unfold apply_phase2.
+  destruct (transition env s0 (fst r) (snd r)) eqn:E; try constructor.
+  eapply Reach_trans; [eapply transition_reach; eauto|].
+  apply Reach_one, P_ghost. unfold same_entities; cbn; repeat split.
 Qed.
 
-Lemma cancel_requests_reach A s : Reach A s (cancel_requests env s).
+Lemma cancel_requests_reach A T s : Reach A T s (cancel_requests env s).
 Proof.
   unfold cancel_requests. apply fold_reach. intros s0 rid. unfold cancel_one.
   destruct (find rid (requests s0)); [|constructor]. destruct (Z.ltb _ _); [constructor|].
@@ -202,7 +203,7 @@ Proof.
   eapply R_step; [eapply P_remr; eauto|]. apply ghost_emit.
 Qed.
 
-Lemma admit_requests_reach (A : Request -> Prop) s rows : (forall r, In r rows -> A r) -> Reach A s (admit_requests env s rows).
+Lemma admit_requests_reach (A : Request -> Prop) T s rows : (forall r, In r rows -> A r) -> Reach A T s (admit_requests env s rows).
 Proof.
   unfold admit_requests. revert s. induction rows as [|r rows IH]; intros s HA; cbn [fold_left]; [constructor|].
   eapply Reach_trans; [|apply IH; intros; apply HA; right; assumption].
@@ -211,23 +212,23 @@ Proof.
   eapply R_step; [eapply P_addr; [apply HA; left; reflexivity|eauto]|]. apply ghost_emit.
 Qed.
 
-Lemma prices_reach A s ups : Reach A s (fold_left (fun acc u => update_station_prices env acc (fst u) (snd u)) ups s).
+Lemma prices_reach A T s ups : Reach A T s (fold_left (fun acc u => update_station_prices env acc (fst u) (snd u)) ups s).
 Proof.
   apply fold_reach. intros s0 u. unfold update_station_prices. destruct (find (fst u) (stations s0)); [|constructor].
   destruct (modify_station env s0 _) eqn:E; try constructor. apply Reach_one. eapply P_mods; eauto.
 Qed.
 
-Lemma driver_update_reach A rt s v s' : driver_update env rt s v = Ok s' -> Reach A s s'.
+Lemma driver_update_reach A T rt s v s' : driver_update env rt s v = Ok s' -> Reach A T s s'.
 Proof.
   unfold driver_update, apply_new_driver_state. intro H. repeat dmatch H; try (inv H; constructor).
   - cbn in E2. eapply Reach_trans; [apply ghost_emit|]. apply Reach_one. eapply P_modv; eauto.
   - cbn in E2. eapply Reach_trans; [apply ghost_emit|]. apply Reach_one. eapply P_modv; eauto.
 Qed.
-Lemma perform_driver_state_updates_reach A rt s : Reach A s (perform_driver_state_updates env rt s).
+Lemma perform_driver_state_updates_reach A T rt s : Reach A T s (perform_driver_state_updates env rt s).
 Proof.
   unfold perform_driver_state_updates.
   (* on error the fold resumes from the initial state: generalise over the restart point *)
-  assert (G : forall l acc, Reach A s acc -> Reach A s (fold_left (fun acc v => match driver_update env rt acc v with Ok s' => s' | _ => s end) l acc)).
+  assert (G : forall l acc, Reach A T s acc -> Reach A T s (fold_left (fun acc v => match driver_update env rt acc v with Ok s' => s' | _ => s end) l acc)).
   { induction l as [|v l IH]; intros acc Hacc; cbn [fold_left]; [exact Hacc|]. apply IH.
     destruct (driver_update env rt acc v) eqn:E; try constructor. eapply Reach_trans; [exact Hacc|]. eapply driver_update_reach; eauto. }
   apply G. constructor.
@@ -236,7 +237,7 @@ Qed.
 Definition op_admits (o : Op) (r : Request) : Prop :=
   match o with OpAdmit rows => In r rows | _ => False end.
 
-Theorem step_op_reach s o : Reach (op_admits o) s (step_op env s o).
+Theorem step_op_reach s o : Reach (op_admits o) (o = OpTick) s (step_op env s o).
 Proof.
   destruct o; cbn [step_op].
   - apply apply_instructions_reach.
@@ -245,7 +246,7 @@ Proof.
   - apply admit_requests_reach. auto.
   - apply prices_reach.
   - apply perform_driver_state_updates_reach.
-  - apply Reach_one, P_ghost. unfold same_entities, sim_tick; cbn; repeat split.
+  - apply Reach_one, P_tick. reflexivity.
   - apply Reach_one, P_ghost. unfold same_entities; cbn; repeat split.
 Qed.
 
